@@ -177,9 +177,65 @@ func runC05(c *Ctx) {
 		isConst := func(n int64) func(ssa.Value) bool {
 			return func(v ssa.Value) bool { k, ok := constInt(v); return ok && k == n }
 		}
+		// D15: a negative reply lives min(cap, smallest TTL of its records) — a fixed cap alone stores zero-TTL replies and
+		// serves a reply after its (shorter) TTL ran out. The helper's body: Duration(x)*second with x = cap, or
+		// min(cap, GetMinimalTTL(r)) when the reply has a record with a TTL.
+		negOK := func(cap int64) func(ssa.Value) bool {
+			return func(v ssa.Value) bool {
+				cl, ok := v.(*ssa.Call)
+				if !ok {
+					return false
+				}
+				h := staticCallee(cl)
+				if h == nil || len(cl.Call.Args) != 2 || len(h.Params) != 2 {
+					return false
+				}
+				if n, isC := constInt(cl.Call.Args[1]); !isC || n != cap {
+					return false
+				}
+				if cl.Call.Args[0] != ssa.Value(rParam) {
+					return false
+				}
+				capped, sawMin := true, false
+				for _, r := range returnsOf(h) {
+					x, ok := durOf(returnedValues(r)[0])
+					if !ok {
+						return false
+					}
+					for _, lf := range expandCases(x, nil, 0) {
+						switch y := lf.val.(type) {
+						case *ssa.Parameter:
+							if y != h.Params[1] {
+								capped = false
+							}
+						case *ssa.Call:
+							n := callName(y)
+							if !(strings.HasSuffix(n, ".min") || n == "builtin:min") || len(y.Call.Args) != 2 {
+								capped = false
+								continue
+							}
+							a, b := y.Call.Args[0], y.Call.Args[1]
+							if a != ssa.Value(h.Params[1]) {
+								a, b = b, a
+							}
+							g, isG := b.(*ssa.Call)
+							if a != ssa.Value(h.Params[1]) || !isG || !strings.HasSuffix(callName(g), "dnsutils.GetMinimalTTL") || g.Call.Args[0] != ssa.Value(h.Params[0]) {
+								capped = false
+								continue
+							}
+							sawMin = true
+						default:
+							capped = false
+						}
+					}
+				}
+				return capped && sawMin
+			}
+		}
+		_ = isConst
 		classes := []class{
-			{"NXDOMAIN", 3, -1, -1, isConst(30 * sec), "30 s"},
-			{"SERVFAIL", 2, -1, -1, isConst(5 * sec), "5 s"},
+			{"NXDOMAIN", 3, -1, -1, negOK(30), "min(30 s, smallest record TTL)"},
+			{"SERVFAIL", 2, -1, -1, negOK(5), "min(5 s, smallest record TTL)"},
 			{"other-rcode", -1, -1, -1, func(v ssa.Value) bool { k, ok := constInt(v); return ok && k <= 0 }, "0 (not stored)"},
 			{"NOERROR-empty", 0, 1, -1, func(v ssa.Value) bool {
 				x, ok := durOf(v)
